@@ -24,7 +24,7 @@ type StrictLedger struct {
 	Log   []LedgerEvent
 	// Hook, if set, is called (without the lock) after a registration was
 	// accepted and before its event is emitted.
-	Hook func(ev string, id channel.ID, ver uint64)
+	Hook func(who, ev string, id channel.ID, ver uint64)
 }
 
 // LedgerEvent is one logged ledger call / effect.
@@ -344,7 +344,7 @@ func (b *Backend) Register(_ context.Context, req channel.AdjudicatorReq, subs [
 	hook := l.Hook
 	l.mu.Unlock()
 	if hook != nil {
-		hook("registered", req.Params.ID(), req.Tx.Version)
+		hook(b.Name, "registered", req.Params.ID(), req.Tx.Version)
 	}
 	l.mu.Lock()
 	for _, e := range evs {
